@@ -117,7 +117,11 @@ func (c *LRUCache) Put(key uint64, bm *roaring.Bitmap) {
 	if elem, ok := c.entries[key]; ok {
 		c.lruList.MoveToFront(elem)
 		item := elem.Value.(*lruCacheItem)
+		c.curSize -= item.size
 		item.bm = bm
+		item.size = bm.GetSizeInBytes()
+		c.curSize += item.size
+		c.evict()
 		return
 	}
 
@@ -131,6 +135,10 @@ func (c *LRUCache) Put(key uint64, bm *roaring.Bitmap) {
 
 	c.curSize += item.size + uint64(lruCacheItemSize) + uint64(listElementSize)
 
+	c.evict()
+}
+
+func (c *LRUCache) evict() {
 	for c.curSize > c.maxSize && c.lruList.Len() > 0 {
 		item := c.lruList.Remove(c.lruList.Back()).(*lruCacheItem)
 		c.curSize -= item.size + uint64(lruCacheItemSize) + uint64(listElementSize)
